@@ -250,9 +250,15 @@ impl Tour {
                 .iter()
                 .map(|n| self.network.node(*n).travel_distance())
                 .sum();
-        let new_dead_head_distance = self.dead_head_distance
-            - self.dead_head_distance_of_segment(start_pos, end_pos)
-            + self.dead_head_distance_of_new_nodes(&new_nodes, start_pos, end_pos);
+        let dead_head_distance_delta_opt = if self.dead_head_distance == Distance::Infinity {
+            // the path might replace the (infinitely distant) overflow depot, recompute below
+            None
+        } else {
+            Some(
+                self.dead_head_distance - self.dead_head_distance_of_segment(start_pos, end_pos)
+                    + self.dead_head_distance_of_new_nodes(&new_nodes, start_pos, end_pos),
+            )
+        };
 
         let new_costs = self.costs - self.costs_of_segment(start_pos, end_pos)
             + self.costs_of_new_nodes(&new_nodes, start_pos, end_pos);
@@ -263,6 +269,10 @@ impl Tour {
         let removed_nodes: Vec<NodeIdx> = new_tour_nodes
             .splice(start_pos..end_pos, new_nodes)
             .collect();
+
+        let new_dead_head_distance = dead_head_distance_delta_opt.unwrap_or_else(|| {
+            Tour::compute_dead_head_distance_of_nodes(&new_tour_nodes, &self.network)
+        });
 
         // 1) if new path contains maintenance then the new tour has a maintenance node. Otherwise:
         // 2) if the old tour had no maintenance node than the new tour has no maintenance node either.
